@@ -85,7 +85,25 @@ func runRead(rd io.Reader, cfg *sse.ReadConfig, stopAt int) (obs readObs) {
 			}
 		}
 	}()
-	sse.Read(rd, cfg)(func(e sse.Event, err error) bool {
+	seq := sse.Read(rd, cfg)
+	defer func() {
+		// a second pass over a sequence whose stream ended cleanly: nothing is left, so it yields no
+		// event (and does not panic: the deferred recover above would record it)
+		if obs.End != "clean" || len(obs.Proto) > 0 {
+			return
+		}
+		second := 0
+		seq(func(e sse.Event, err error) bool {
+			if err == nil {
+				second++
+			}
+			return true
+		})
+		if second > 0 {
+			obs.Proto = append(obs.Proto, fmt.Sprintf("a second pass over the sequence, after the stream had ended, yielded %d events", second))
+		}
+	}()
+	seq(func(e sse.Event, err error) bool {
 		if stopped {
 			obs.Proto = append(obs.Proto, "yield called after it returned false")
 			return false
